@@ -32,6 +32,8 @@ var rawFuncs = map[string]struct {
 	"tmd": {"tmd", SStr}, "fsread": {"fsread", SStr},
 	"rv_deepnan": {"rv_deepnan", SBool},
 	"rvkind":     {"rvkind", SInt}, "tconvertible": {"tconvertible", SBool},
+	"tnumout": {"tnumout", SInt}, "tout": {"tout", SInt}, "tmethod": {"tmethod", SBool}, "tfield": {"tfield", SBool},
+	"texported": {"texported", SBool}, "tnumfield": {"tnumfield", SInt},
 }
 
 func (c *SpecCtx) args(es []ast.Expr) []TT {
